@@ -176,7 +176,10 @@ DevHeavyChecks(s2, e) ==
   LET t == s2.tree IN
   << <<"C01", "api.walk", ApiOK(e) /\ e.api.walk = WalkDump(t), TRUE>>,
      <<"C02", "reopen.permissive",
-        Has(e, "reopen") => (ReopenOK(e, "permissive") /\ e.reopen.permissive.ok.walk = WalkDump(t)), TRUE>> >>
+        Has(e, "reopen") => (ReopenOK(e, "permissive") /\ e.reopen.permissive.ok.walk = WalkDump(t)), TRUE>>,
+     \* a flush changes nothing in the bytes: the deviation is still there, and every way of opening strictly still refuses it
+     <<"C16", "strict-rejects",
+        (e.op = "flush" /\ Has(e, "reopen") /\ Has(e, "imghash") /\ PrevHash(e) = e.imghash) => Has(e.reopen.strict, "err"), FALSE>> >>
 
 HChecks(s1, s2, e) == IF devmode THEN DevHeavyChecks(s2, e) ELSE HeavyChecks(s1, s2, e)
 Failed(cs)   == SelectSeq(cs, LAMBDA c : ~c[3])
